@@ -65,6 +65,75 @@ func translateKey(key string, site ssa.Instruction) string {
 // heldAtEntry: at every static call site of fn, the lock key (callee-relative) is held in at least mode —
 // locally at the site or, recursively (depth-bounded), at the caller's own entry. Functions with no call
 // site, or that escape as values, are not "called with the lock held".
+// syncCallbackTakers: functions that invoke their function-typed argument synchronously, on the calling
+// goroutine, before returning — a lock held at the call is held inside the callback.
+var syncCallbackTakers = map[string]bool{
+	"sort.Slice": true, "sort.SliceStable": true, "sort.Search": true, "slices.SortFunc": true, "path/filepath.Walk": true,
+	"banyand/internal/storage.loadSegments": true, "banyand/internal/storage.walkDir": true,
+}
+
+// heldInClosure: fn is a closure created in its parent and handed to a synchronous callback taker while
+// the parent (or, recursively, the parent's callers) holds the lock.
+func (r *R) heldInClosure(fn *ssa.Function, key string, mode, depth int) bool {
+	parent := fn.Parent()
+	if parent == nil || !strings.HasPrefix(key, "free:") {
+		return false
+	}
+	name, rest, _ := strings.Cut(strings.TrimPrefix(key, "free:"), ".")
+	fvIdx := -1
+	for i, fv := range fn.FreeVars {
+		if fv.Name() == name {
+			fvIdx = i
+		}
+	}
+	if fvIdx < 0 {
+		return false
+	}
+	ok := false
+	for _, b := range parent.Blocks {
+		for _, in := range b.Instrs {
+			mc, isMC := in.(*ssa.MakeClosure)
+			if !isMC || mc.Fn != fn {
+				continue
+			}
+			bind := mc.Bindings[fvIdx]
+			base := ssax.Path(bind)
+			if al, isAl := bind.(*ssa.Alloc); isAl {
+				for _, ref := range *al.Referrers() {
+					if st, isSt := ref.(*ssa.Store); isSt && st.Addr == al {
+						if p, isP := st.Val.(*ssa.Parameter); isP {
+							base = ssax.ParamName(p)
+						}
+					}
+				}
+			}
+			pkey := base + "." + rest
+			refs := mc.Referrers()
+			if refs == nil {
+				return false
+			}
+			for _, ref := range *refs {
+				c, isCall := ref.(*ssa.Call)
+				if !isCall || !syncCallbackTakers[ssax.CalleeName(c.Common())] {
+					return false
+				}
+				if locksOf(parent).At(c)[pkey] >= mode {
+					ok = true
+					continue
+				}
+				if depth > 0 && parent.Parent() == nil {
+					if held, _ := r.heldAtEntry(parent, pkey, mode, depth-1); held {
+						ok = true
+						continue
+					}
+				}
+				return false
+			}
+		}
+	}
+	return ok
+}
+
 func (r *R) heldAtEntry(fn *ssa.Function, key string, mode, depth int) (bool, string) {
 	ix := r.P.Index()
 	sites := ix.CallSites[fn]
@@ -91,6 +160,9 @@ func (r *R) heldAtEntry(fn *ssa.Function, key string, mode, depth int) (bool, st
 		}
 		if depth > 0 {
 			if ok, _ := r.heldAtEntry(s.Parent(), k, mode, depth-1); ok {
+				continue
+			}
+			if s.Parent().Parent() != nil && r.heldInClosure(s.Parent(), k, mode, depth-1) {
 				continue
 			}
 		}
@@ -174,10 +246,14 @@ func (r *R) guardedField(rule, q, lockField string, pkgs []string, exempt map[st
 				continue
 			}
 			if !strings.HasPrefix(a.base, "free:") && fn.Parent() == nil {
-				if ok, _ := r.heldAtEntry(fn, key, mode, 2); ok {
+				if ok, _ := r.heldAtEntry(fn, key, mode, 4); ok {
 					r.Hold(rule, construct, r.pos(a.in), "every caller holds "+key)
 					continue
 				}
+			}
+			if fn.Parent() != nil && r.heldInClosure(fn, key, mode, 4) {
+				r.Hold(rule, construct, r.pos(a.in), "synchronous callback invoked while the parent holds the lock")
+				continue
 			}
 			r.Violate(rule, construct, r.pos(a.in), fmt.Sprintf("%s of %s without holding %s (%s lock) of the same value", kind, q, key, map[int]string{1: "read", 2: "write"}[mode]))
 		}
